@@ -282,7 +282,7 @@ two destination sizes -/
 theorem nfc_twice (dmax dmax' : Nat) (src : List Nat) (h0 : ∀ c ∈ src, c ≠ 0)
     (h1 : (wcsnormS current 1 dmax src).ret = 0) (h2 : (wcsnormS current 1 dmax' (wcsnormS current 1 dmax src).out).ret = 0) :
     (wcsnormS current 1 dmax' (wcsnormS current 1 dmax src).out).out = (wcsnormS current 1 dmax src).out :=
-  wcsnormS_nfc_twice dmax dmax' src h0 h1 h2
+  wcsnormS_nfc_twice current rfl dmax dmax' src h0 h1 h2
 
 example : (wcsnormS current 1 16 [0x73, 0x307, 0x323, 0x1100, 0x1161]).ret = 0 ∧
     (wcsnormS current 1 16 [0x73, 0x307, 0x323, 0x1100, 0x1161]).out = [0x1E69, 0xAC00] ∧
@@ -305,7 +305,7 @@ theorem nfc_twice_succeeds_partial (dmax dmax' : Nat) (src : List Nat) (hs : ∀
     (hmax' : dmax' ≤ RSIZE_MAX_WSTR) (hroom' : (nfdPure src).length + 5 ≤ dmax') :
     (wcsnormS current 1 dmax src).ret = 0 ∧ (wcsnormS current 1 dmax' (wcsnormS current 1 dmax src).out).ret = 0 ∧
     (wcsnormS current 1 dmax' (wcsnormS current 1 dmax src).out).out = (wcsnormS current 1 dmax src).out :=
-  wcsnormS_nfc_twice_ok dmax dmax' src hs hmax hroom hmax' hroom'
+  wcsnormS_nfc_twice_ok current rfl dmax dmax' src hs hmax hroom hmax' hroom'
 
 example : (nfdPure [0x1E69, 0xAC01]).length + 5 ≤ 11 ∧ (wcsnormS current 1 11 [0x1E69, 0xAC01]).out = [0x1E69, 0xAC01] := by decide +kernel
 
